@@ -109,7 +109,12 @@ fn postprocess_completion_candidate(
                 _ => escape::QuoteMode::BackslashEscape,
             };
 
-            candidate = escape::quote_if_needed(&candidate, quote_mode).to_string();
+            // As readline does, leave a leading tilde alone so that it still expands.
+            candidate = if let Some(rest) = candidate.strip_prefix('~') {
+                format!("~{}", escape::quote_if_needed(rest, quote_mode))
+            } else {
+                escape::quote_if_needed(&candidate, quote_mode).to_string()
+            };
         }
     }
     if completing_end_of_line && !options.no_trailing_space_at_end_of_line {
